@@ -2,6 +2,7 @@ package v2breaking
 
 import (
 	"context"
+	"time"
 
 	openfgav1 "github.com/openfga/api/proto/openfga/v1"
 	"google.golang.org/protobuf/types/known/structpb"
@@ -12,6 +13,7 @@ import (
 	"github.com/openfga/openfga/internal/vtmodels"
 	"github.com/openfga/openfga/internal/vtplan"
 	"github.com/openfga/openfga/internal/vtsem"
+	"github.com/openfga/openfga/pkg/storage/cache/keys"
 	"github.com/openfga/openfga/pkg/tuple"
 	"github.com/openfga/openfga/pkg/typesystem"
 )
@@ -69,6 +71,42 @@ func verifLess(a, b verifReq) bool {
 	return a.user < b.user
 }
 
+// verifE03Cache is a storage.InMemoryCache[any] without expiry (association list).
+type verifE03Cache struct {
+	ks []keys.Key
+	vs []any
+}
+
+func (c *verifE03Cache) Get(k keys.Key) any {
+	for i := range c.ks {
+		if c.ks[i] == k {
+			return c.vs[i]
+		}
+	}
+	return nil
+}
+
+func (c *verifE03Cache) Set(k keys.Key, v any, ttl time.Duration) {
+	for i := range c.ks {
+		if c.ks[i] == k {
+			c.vs[i] = v
+			return
+		}
+	}
+	c.ks = append(c.ks, k)
+	c.vs = append(c.vs, v)
+}
+
+func (c *verifE03Cache) Delete(k keys.Key) {
+	for i := range c.ks {
+		if c.ks[i] == k {
+			c.vs[i] = nil
+		}
+	}
+}
+
+func (c *verifE03Cache) Stop() {}
+
 // VerifE03WeightedCheck: the weighted-graph engine (internal/check.Resolver, built as CheckQueryV2 builds
 // it) over the symbolic store. Object subjects: a returned decision equals the reference semantics.
 // Userset / wildcard subjects: a decision that differs from the reference semantics (= what the default
@@ -83,6 +121,8 @@ func VerifE03WeightedCheck() {
 	if gerr != nil {
 		return
 	}
+	vtsem.StarSecondID = vt.ParamInt("starid", 0) == 1
+	vtsem.LowFirstID = vt.ParamInt("lowid", 0) == 1
 	u := vtsem.NewUniverse(m, vt.ParamInt("nobj", 2), vt.ParamInt("invalid", 1) == 1)
 	u.Restrict(vt.ParamInt("maxcands", 12), vt.ParamInt("seed", 0))
 	st := vtsem.NewSymbolicStore(u)
@@ -104,17 +144,49 @@ func VerifE03WeightedCheck() {
 	if !vt.Symbolic() {
 		reqCtx = st.RequestContext()
 	}
-	resolver := check.New(check.Config{
+	// C10 ("hc" = 1): the request asks for HIGHER_CONSISTENCY and the reader asserts that every read it serves
+	// carries that preference
+	consistency := openfgav1.ConsistencyPreference_UNSPECIFIED
+	if vt.ParamInt("hc", 0) == 1 {
+		consistency = openfgav1.ConsistencyPreference_HIGHER_CONSISTENCY
+	}
+	cfg := check.Config{
 		Model:            mg,
-		Datastore:        &vtsem.Reader{S: st},
+		Datastore:        &vtsem.Reader{S: st, RequireHC: vt.ParamInt("hc", 0) == 1},
 		Planner:          vtplan.New(vt.ParamInt("plan", -1)),
 		ConcurrencyLimit: 25,
-	})
+	}
+	if vt.ParamInt("qcache", 0) == 1 {
+		// C08: the engine's own query cache (entries never expire within a run)
+		cfg.Cache, cfg.CacheTTL = &verifE03Cache{}, time.Hour
+	}
+	resolver := check.New(cfg)
+	if vt.ParamInt("prior", 0) == 1 {
+		// an arbitrary other request is answered first by the same resolver (its cache is warm afterwards)
+		pi := vt.ParamInt("priorreq", -1)
+		if pi < 0 || pi >= len(reqs) {
+			pi = vt.Choose("prior", len(reqs))
+		}
+		pq := reqs[pi]
+		vt.Event("prior check " + pq.obj + "#" + pq.rel + "@" + pq.user)
+		if preq, perr := check.NewRequest(check.RequestParams{StoreID: "01HVMMBCMGZNT3SED4Z17ECXCB", Model: mg,
+			TupleKey: tuple.NewTupleKey(pq.obj, pq.rel, pq.user), Context: reqCtx, Consistency: consistency}); perr == nil {
+			_, _ = resolver.ResolveCheck(context.Background(), preq)
+		}
+	}
+	var ctxTuples []*openfgav1.TupleKey
+	if k := vt.ParamInt("ctx", 0); k > 0 {
+		// C04: the first k valid candidates are not in the store; those that are "present" travel as contextual
+		// tuples of the request. The reference semantics ignores the split.
+		ctxTuples = st.SplitContextual(k)
+	}
 	req, rerr := check.NewRequest(check.RequestParams{
-		StoreID:  "01HVMMBCMGZNT3SED4Z17ECXCB",
-		Model:    mg,
-		TupleKey: tuple.NewTupleKey(rq.obj, rq.rel, rq.user),
-		Context:  reqCtx,
+		StoreID:          "01HVMMBCMGZNT3SED4Z17ECXCB",
+		Model:            mg,
+		TupleKey:         tuple.NewTupleKey(rq.obj, rq.rel, rq.user),
+		Context:          reqCtx,
+		ContextualTuples: ctxTuples,
+		Consistency:      consistency,
 	})
 	if rerr != nil {
 		vt.Reach("request-rejected")
